@@ -14,7 +14,7 @@ theorem swapBytes_eq_reverse (l : List UInt8) : swapBytes l = l.reverse := by
   · simp [swapBytes]
   · intro i h1 h2
     simp only [swapBytes, List.length_map, List.length_range] at h1
-    simp only [swapBytes, List.getElem_map, List.getElem_range, List.getElem_reverse]
+    simp only [swapBytes, swapIndex, List.getElem_map, List.getElem_range, List.getElem_reverse]
     have : l.length - i - 1 < l.length := by omega
     simp [List.getD, this]
     congr 1
